@@ -28,6 +28,8 @@ CLAIMED = {
  'C02': ('5.5', 'Slot counts pre-sized from attacker-controlled counts are capped and every decoded element is physically present: sFlow slots <= 1000 + 1000*(len/20) for every byte string, data-set records * min-size <= set bytes, v5 slots <= 16-bit count -- proved (ghost quantity); measured: every aligned 16/32-bit word of structured datagrams replaced by each of the 7 hostile values, TotalAlloc per datagram <= 16 MiB + 256*len*(1+W) in a child with an address-space limit.', 'Partial: the theorems bound the ghost slot/record counts for successful decodes; real bytes (GC, allocator, failing decodes) are measured, not modelled. '),
 
  'C16': ('5.16', 'For any number of workers and any interleaving of their lookup / create-publish / add steps the repaired protocol keeps every announced template and rate visible (inductive invariant over all schedules); the pinned protocol is refuted by an explicit 6-step schedule; on the implementation every release order of 2..3 workers parked inside the public factory callbacks is forced, for the template map and the sampling map, followed by sequential data sets.', 'Partial: interleavings are forced at the factory callbacks only; atomicity of the individual steps is assumed (single critical sections). '),
+
+ 'C19': ('5.19', 'For any number of senders and any schedule of their pick/write steps and of rotations the repaired protocol never writes to a closed file and keeps every completed message (inductive invariant over all schedules); at most one unit per step; the pinned protocol is refuted by a 3-step schedule; on the implementation a rotation is forced exactly between picking the writer and writing (verif schedule point) and free-running senders with SIGHUP rotations are checked for loss, duplication and garbling with three separators.', 'Partial: atomicity of one O_APPEND write(2) is an OS assumption exercised by the free-running runs. '),
 }
 props = [json.loads(l) for l in open(os.path.join(V, 'properties.jsonl'))]
 checks, na = [], []
@@ -45,7 +47,7 @@ for p in props:
         na.append(dict(property_id=pid, reason='check not built yet in this session (model and theorems planned in DESIGN.md section 5); not claimed until it runs'))
 m = dict(version=1, setup_cmd='bin/setup',
          hooks=dict(guard='verif', enable='go build -tags verif (harness/ imports /repo through a replace directive)',
-                    baseline_off_cmd='cd /repo && go test -vet=off -count=1 ./...', source_commits=['a21f449', '2d0a23d'], add_only=True),
+                    baseline_off_cmd='cd /repo && go test -vet=off -count=1 ./...', source_commits=['a21f449', '2d0a23d', '5ab19ab'], add_only=True),
          engines=[dict(name='coq-correspondence', path='bin/check', serves_properties=[c['property_id'] for c in checks],
                        kind_free_text='Coq 8.16.1 proofs over a hand-written Gallina model; extracted OCaml model compared with the Go implementation built from /repo on every run')],
          checks=checks, notes='see DESIGN.md', not_applicable=na)
